@@ -85,7 +85,7 @@ def run(ctx):
         selection(ctx, rng, xr)
     for i, rng in ctx.cases("track", ctx.n(40, 1000)):
         track(ctx, rng, xr)
-    for i, rng in ctx.cases("lazy_then_edit", ctx.n(60, 1500)):
+    for i, rng in ctx.cases("lazy_then_edit", ctx.n(160, 2500)):
         lazy_then_edit(ctx, rng, xr, ops)
     tr.stats()
     sys.setswitchinterval(1e-5)   # multiply GIL hand-offs between native calls
@@ -221,7 +221,10 @@ def lazy_then_edit(ctx, rng, xr, ops):
     A, _ = gen.stack_spectra(rng, f, th, lsizes, cls="multimodal")
     x = gen.make_da(A, f, th, lnames, lsizes)
     aux = O.make_aux(rng, x, xr)
-    name = str(rng.choice(["hs", "tm01", "dm", "dspr", "tp", "dpm", "dp", "ptm1", "ptm2", "ptm3", "ptm4", "smooth", "split", "split_dir", "rotate", "interp", "stats", "uss_x", "bbox"]))
+    if rng.random() < 0.4:      # kernels that receive the grid as an argument: the partition family
+        name = str(rng.choice(["ptm1", "ptm2", "ptm3", "ptm4", "ptm5", "bbox", "hp01"]))
+    else:
+        name = str(rng.choice(["hs", "tm01", "dm", "dspr", "tp", "dpm", "dp", "smooth", "split", "split_dir", "rotate", "interp", "interp_freq", "stats", "uss_x", "mss", "goda", "oned", "alpha", "gamma", "dpspr"]))
     op = ops[name]
     if nf < op.min_nf or ((op.exact or op.peak or name in ("dp", "dm")) and ties(x, op)):
         rec.skip("lazy_then_edit", "not applicable / tied")
